@@ -120,11 +120,37 @@ def format_grid(rng, quick):
     return sorted(set(out))
 
 
+def object_algebra(rng, n):
+    """Objects built by inheritance chains over literals (three visibilities, `+:`, super, locals, asserts, computed
+    names), comprehensions and the object-producing builtins (objectRemoveKey also applied to composites), handed to
+    every kind of consumer."""
+    from checks import c07
+    out = []
+    for _ in range(n):
+        k = rng.randrange(2, 5)
+        atoms = [c07.rich_atom(rng) for _ in range(k)]
+        e = c07.rich_expr(c07.random_tree(rng, 0, k), atoms)
+        if rng.random() < 0.35:
+            e = "std.objectRemoveKey(%s, '%s')" % (e, rng.choice(c07.POOL))
+            if rng.random() < 0.5:
+                e = "(%s + %s)" % (e, c07.rich_atom(rng)[0]) if rng.random() < 0.5 else "(%s + %s)" % (c07.rich_atom(rng)[0], e)
+        e2 = c07.rich_atom(rng)[0]
+        key = rng.choice(c07.POOL)
+        out.append(rng.choice([
+            '%s', 'std.toString(%s)', '(%%s) == (%s)' % e2, 'std.objectValues(%s)', 'std.objectFieldsAll(%s)', 'std.objectValuesAll(%s)',
+            'std.manifestJsonEx(%s, " ")', 'std.mergePatch(%%s, %s)' % e2, 'std.mergePatch(%s, %%s)' % e2, 'std.prune(%s)',
+            "std.get(%%s, '%s', 0)" % key, "std.objectHas(%%s, '%s')" % key, 'std.length(%s)', 'std.manifestYamlDoc(%s)',
+            "(%%s).%s" % key, "('%s' in (%%s))" % key, 'std.objectKeysValues(%s)', '[x for x in std.objectFields(%s)]',
+            'std.manifestTomlEx(%s, " ")', 'std.manifestPython(%s)', "std.mapWithKey(function(k, v) v, %s)", '{ [k]: (%s)[k] for k in std.objectFields(%s) }',
+        ]).replace('%s', e))
+    return out
+
+
 def run(rep):
     rep.rule = ("(a) random and mutated byte strings as source (ui-tests corpus, stdlib source, generated programs), "
                 "(b) generated core programs, (c) every member of `std` (listed by the implementation itself) applied to a "
                 "grid of boundary arguments of every type, a grid of every format directive (conversion x flags x width x precision x "
-                "argument form, nested in other expressions), every UTF-8 lead byte x boundary second byte x tail in every lexical context, (d) the real CLI on a sample incl. ext-var/TLA bindings, exit "
+                "argument form, nested in other expressions), object-algebra expressions (inheritance chains over every kind of object constructor, under every consumer), every UTF-8 lead byte x boundary second byte x tail in every lexical context, (d) the real CLI on a sample incl. ext-var/TLA bindings, exit "
                 "status and stderr inspected, (e) nesting-depth probes of every recursive syntactic form; non-trivial = the "
                 "input reached the evaluator or produced a diagnosed error other than the first-byte lexical error; "
                 "distinct by input text")
@@ -215,6 +241,7 @@ def run(rep):
     fg = format_grid(rng, quick)
     rep.extra['format_grid'] = len(fg)
     calls += fg
+    calls += object_algebra(rng, 700 if quick else 20000)
     lines = [vlib.eval_line('local r = (%s); if std.isFunction(r) then "function" else r' % c, max_stack=400) for c in calls]
     outs = vlib.impl(lines, timeout=1500, mem_limit=MEM_LIMIT)
     for c, a in zip(calls, outs):
